@@ -13,7 +13,8 @@ RULE = ('Hypothesis-generated tables (ragged allowed) x UPDATE [SET] / UPDATE a 
         'optional INNER/LEFT JOIN (<=1 match per key, and >1 => must fail). Oracle = reference UPDATE: one output record per input record, '
         'equal to the input except at assigned indices of qualifying records where it equals the right-hand side evaluated in the pre-update '
         'environment; assigning to a missing field => RbqlRuntimeError naming the record and field. Frame condition checked explicitly. '
-        'Non-trivial = >=2 assignments one of which reads another assigned field, and WHERE/JOIN splits the table (some records updated, some not).')
+        'Non-trivial = >=2 assignments one of which reads another assigned field, and WHERE/JOIN splits the table (some records updated, some not).'
+        ' Later additions: keyword-argument calls and raw white-space literals in right-hand sides, deterministic permutations of named targets, 2600-record cases.')
 ASSUMPTIONS = ['right-hand sides are generated to be evaluable', 'LEFT JOIN partner of an unmatched record is the all-None record (C04)']
 
 
